@@ -113,6 +113,13 @@ def run(ctx):
                        txt(n.args[2]) == txt(n.args[0]), loc=loc(f, n), detail=txt(n))
     if n_ga < 2:
         ctx.unknown('T25.keyattr', M, 'fewer than two getattr(x, key, <fallback>) sites found (%d)' % n_ga, 'boltons/iterutils.py')
+    # T10e element conservation (rules/conserve.py) for the helpers that keep every element they do not filter out.
+    # rstrip_iter (trailing run is held back and dropped on purpose) and redundant (first occurrences are remembered, only
+    # repeats are reported) are regrouping helpers of a different kind and are not subjects of this rule.
+    from rules.conserve import element_conservation
+    for name, param in (('split_iter', 'src'), ('lstrip_iter', 'iterable'), ('chunked_iter', 'src'), ('unique_iter', 'src'),
+                        ('bucketize', 'src')):
+        element_conservation(ctx, prog, prog.func('%s.%s' % (M, name)), param)
     from rules.common import check_get_none_presence
     for name in ('redundant', 'unique_iter', 'bucketize'):
         check_get_none_presence(ctx, prog.func('%s.%s' % (M, name)))
